@@ -273,6 +273,9 @@ func (x Expr) GetNodes(n gen.Node) (results []gen.Node) {
 				if start < 0 {
 					start = len(tv) + start
 					if start < 0 {
+						if step < 0 { // walking down from before the first element
+							continue
+						}
 						start = 0
 					}
 				}
@@ -553,6 +556,9 @@ func (x Expr) FirstNode(n gen.Node) (result gen.Node) {
 				if start < 0 {
 					start = len(tv) + start
 					if start < 0 {
+						if step < 0 { // walking down from before the first element
+							continue
+						}
 						start = 0
 					}
 				}
